@@ -10,3 +10,4 @@ pub mod specdb;
 pub mod plan;
 pub mod codec;
 pub mod sweeps;
+pub mod c14;
